@@ -129,10 +129,85 @@ fn bitstr(bits: &[u8]) -> String {
     bits.iter().map(|b| char::from(b'0' + (*b).min(9))).collect()
 }
 
+/// Black-box constants of the compiled deframer, for the translator (`tools/extract.py`) when the source text
+/// does not spell them as literals: the octet it synchronises on, and the frame check sequence it accepts
+/// for three payloads (the translator solves the CRC's initial value and final xor from them and the table).
+fn probe_consts() -> Vec<String> {
+    let mut out = vec![];
+    // the flag: with checksum checking off, a frame delimited by octet `c` is delivered iff `c` is the flag
+    let filler = vec![0x55u8; 12];
+    let mut flags = vec![];
+    for c in 0..=255u8 {
+        let (mut fi, r) = feeder::<u8>(0);
+        let (mut b, o) = HdlcDeframer::new(r, 2, 100);
+        b.set_checksum(false);
+        let mut bits = bits_lsb(&[c]);
+        bits.extend(bits_lsb(&filler));
+        bits.extend(bits_lsb(&[c]));
+        bits.extend([0u8; 8]);
+        let vals: Vec<u64> = bits.iter().map(|x| *x as u64).collect();
+        fi.push(&vals, &[]);
+        let _ = quiet(|| {
+            for _ in 0..4 {
+                let _ = b.work();
+            }
+        });
+        let mut got = vec![];
+        while let Some((p, _)) = o.pop() {
+            got.push(p);
+        }
+        if got.len() == 1 && got[0] == filler {
+            flags.push(c);
+        }
+    }
+    if flags.len() == 1 {
+        out.push(format!("# probe flag {}", flags[0]));
+    }
+    // accepted check sequences: one deframer, candidate after candidate
+    let flag_bits = if flags.len() == 1 { bits_lsb(&[flags[0]]) } else { FLAG.to_vec() };
+    // different lengths: the initial value's contribution must not cancel between them
+    let payloads: [Vec<u8>; 5] = [vec![0u8; 6], (1..=8u8).collect(), vec![0xa5u8; 11], vec![0x3cu8; 7], (10..=22u8).collect()];
+    let mut items = vec![];
+    for p in &payloads {
+        let (mut fi, r) = feeder::<u8>(0);
+        let (mut b, o) = HdlcDeframer::new(r, 4, 100);
+        let mut accepted = vec![];
+        for f in 0..=0xffffu32 {
+            let mut bytes = p.clone();
+            bytes.extend((f as u16).to_le_bytes());
+            let mut bits = flag_bits.clone();
+            bits.extend(stuff(&bits_lsb(&bytes)));
+            bits.extend(flag_bits.clone());
+            let vals: Vec<u64> = bits.iter().map(|x| *x as u64).collect();
+            fi.push(&vals, &[]);
+            let _ = quiet(|| {
+                for _ in 0..3 {
+                    let _ = b.work();
+                }
+            });
+            while let Some((q, _)) = o.pop() {
+                if q == *p {
+                    accepted.push(f);
+                }
+            }
+        }
+        if accepted.len() == 1 {
+            items.push(format!("{}={}", p.iter().map(|x| x.to_string()).collect::<Vec<_>>().join(","), accepted[0]));
+        }
+    }
+    if items.len() == 5 {
+        out.push(format!("# probe fcs {}", items.join(";")));
+    }
+    out
+}
+
 pub fn run(args: &[String]) -> Vec<String> {
     let seed = arg_usize(args, "--seed", 1) as u64;
     let cases = arg_usize(args, "--cases", 300);
     rustradio::verif::set_stream_size(4096);
+    if arg_usize(args, "--probe-consts", 0) != 0 {
+        return probe_consts();
+    }
     let mut rng = Rng::new(seed);
     let mut out = Vec::new();
     for i in 0..cases {
